@@ -42,6 +42,8 @@ def strings(rng, thorough):
     for n in (126, 127, 128, 129, 16382, 16383, 16384, 16385):
         out.append('x' * n)
         out.append('é' * (n // 2) + 'y' * (n % 2))
+    # within the protocol's limit of 32767 characters, but more than 32767 / 65535 UTF-8 bytes
+    out += ['x' * 32767, '\u00e9' * 16384, '\u4e2d' * 10923, '\U0001f600' * 8192, '\u00e9' * 32767, '\u4e2d' * 32767, '\U0001f600' * 16384]
     if thorough:
         out.append('z' * 2097151)
         out.append('z' * 2097152)
@@ -117,6 +119,10 @@ def cases(chk):
     T.append(('PrefixedArray(VarInt,PrefixedArray(VarInt,PrefixedArray(VarInt,UnsignedShort)))', arr('VarInt', arr('VarInt', arr('VarInt', ['UnsignedShort']))),
               [[], [[[1, 2], []], []], [[[65535]]]], []))
     return T
+
+
+def GoodSrc(data):
+    return reent.GoodSource(data, None)
 
 
 def impl_enc(obj, v):
@@ -306,6 +312,15 @@ def run(chk):
     # the encoders / decoders behave like functions: nothing is carried over from a call whose socket failed, nothing is shared
     # between threads (the verified outputs above are the reference)
     reent.after_failure(chk, 'reentrancy', [(label, obj.send, v, e) for label, ty, obj, v, e in every])
+    dec_ref = []
+    for label, ty, obj, v, e in every:
+        if ty[0] != 'TrailingByteArray' and len(e) < 400:
+            g = GoodSrc(e + b'\x5a')
+            try:
+                dec_ref.append((label, obj.read, e, (repr(obj.read(g)), g.pos)))
+            except Exception:
+                pass
+    reent.after_read_failure(chk, 'reentrancy', [(label, (lambda s, rd=rd: repr(rd(s))), e, exp) for label, rd, e, exp in dec_ref])
 
     def enc_call(obj, v):
         def call():
